@@ -495,7 +495,7 @@ def judge(sc, obs, census, plan_kind, benign, self_census=False):
     for c in calls:
         if c["cls"] == "mkdir":
             c["creating"] = True
-    stdio_failed = any(c["failed"] and c["cls"] in ("out", "err") for c in calls) or sc.get("stdout_kind", "pipe") != "pipe"
+    stdio_failed = any(c["failed"] and c["cls"] in ("out", "err") for c in calls) or sc.get("stdout_kind", "pipe") in ("devfull", "closed")
     expect_zero, why = model_expect_zero(sc, calls)
     rc = obs["rc"]
     ok_exit = rc == 0 and not obs["sig"]
@@ -861,6 +861,11 @@ def _render_grid_job(args):
     sc = make_scenario(rng, sub, "zoo_invalid", {"color": "never", "arrows": "ascii", "silent": False, "verbose": False, "cell": (0, 0, 0),
                                                  "config": "none", "out_dir": "absent", "script": {"read": "all", "exit": 0}, "order": "parent_first"})
     sc["name"] = "render%d:%s" % (idx, sub)
+    if idx % 4 == 3:
+        # stdout is a terminal with a capable TERM: --color=never must still mean no escape sequence
+        sc["stdout_kind"] = "pty"
+        sc["env"]["TERM"] = "xterm-256color"
+        sc["name"] += ":pty"
     wd = os.path.join(work_root(), "C18", "n%d" % idx)
     obs = run_census(sc, wd)
     v, calls, _ = judge(sc, obs, obs, "render_grid", None)
